@@ -231,7 +231,7 @@ fn starts_with_paren(chain: &Chain) -> bool {
     chain
         .match_pattern
         .as_ref()
-        .is_some_and(|pattern| render_match(pattern).starts_with('('))
+        .is_some_and(|pattern| render_binding(pattern).starts_with('('))
 }
 
 /// Whether rendered text ends in a tuple name (`Name`, `=Name`, `#'t -> Name`, …).
@@ -395,7 +395,7 @@ fn wrap_breaking_body(sequence: &Sequence, body: Doc, multi_branch: bool) -> Doc
 /// internally, rather than forcing the whole chain onto `~>` lines.
 fn chain_doc(trivia: &Trivia, chain: &Chain) -> Doc {
     let prefix = match &chain.match_pattern {
-        Some(pattern) => lines_doc(format!("{} = ", render_match(pattern))),
+        Some(pattern) => lines_doc(format!("{} = ", render_binding(pattern))),
         None => pretty::nil(),
     };
     let terms = &chain.terms;
@@ -431,11 +431,22 @@ fn chain_doc(trivia: &Trivia, chain: &Chain) -> Doc {
         && !is_breakable_container(&terms[terms.len() - 1])
     {
         return pretty::group(pretty::concat(vec![
-            lines_doc(format!("{} =", render_match(pattern))),
+            lines_doc(format!("{} =", render_binding(pattern))),
             pretty::nest(2, pretty::concat(vec![pretty::line(), inner])),
         ]));
     }
     pretty::concat(vec![prefix, pretty::group(inner)])
+}
+
+/// The pattern of a binding `pattern = …`. A type pattern that starts with a `'` is parenthesised
+/// (`('t) = x`, the same pattern): at the start of a statement `'t = X` is read as a type alias.
+fn render_binding(pattern: &Match) -> String {
+    let rendered = render_match(pattern);
+    if matches!(pattern, Match::Type(_)) && rendered.starts_with('\'') {
+        format!("({})", rendered)
+    } else {
+        rendered
+    }
 }
 
 /// Lay out a chain's terms, breaking only at *call-unit* boundaries: a break point sits after a term
